@@ -77,6 +77,37 @@ RoundDigits(d, n, m, r, mode) ==
 
 StripTrailing(t) == LET l == LastNonZero(t, Len(t)) IN IF l = 0 THEN << >> ELSE SubSeq(t, 1, l)
 
+(***************************************************************************)
+(* Clauses of C14 (and the exponent-sign clause of C08) that can be judged  *)
+(* on one output alone: sc = Scan of the written bytes `out` under format f *)
+(* and options o = [max, min, pos, neg, round, trim, exp, point, ...].      *)
+(* Returns a tuple of << property, reason >>.                               *)
+(***************************************************************************)
+VC(cond, prop, why) == IF cond THEN << >> ELSE << << prop, why >> >>
+
+LayoutClauses(f, o, sc, out) ==
+    LET lay == Layout(sc, f)
+        sci == sc.hasExp
+        epos == SegLo(sc.segs, "echar", 1)
+        decimal == Radix(f) = 10 /\ ExponentBase(f) = 10
+        Want(se) == ~f.no_exponent_notation /\ (f.required_exponent_notation \/ se < o.neg \/ se > o.pos)
+        AtBreak(se) == se = o.neg \/ se = o.pos
+        (* the scientific exponent is that of the float; when rounding to max_significant_digits carried *)
+        (* into a new leading digit (output digits "1") the rounded value's exponent is accepted too     *)
+        carriedMaybe == o.max > 0 /\ lay.n = 1 /\ lay.d[1] = 1
+        notationOk == \/ AtBreak(lay.se) \/ sci = Want(lay.se)
+                      \/ (carriedMaybe /\ (AtBreak(lay.se - 1) \/ sci = Want(lay.se - 1)))
+        trimmedInt == o.trim /\ ~sc.hasPoint
+    IN  VC(~(sci /\ f.no_exponent_notation), "C14", "exponent notation used although the format forbids it")
+     \o VC(f.required_exponent_notation /\ ~f.no_exponent_notation => sci, "C14", "exponent notation required by the format but not used")
+     \o (IF decimal /\ lay.n > 0 /\ ~f.required_exponent_notation /\ ~f.no_exponent_notation
+         THEN VC(notationOk, "C14", IF sci THEN "exponent notation used inside the break points" ELSE "positional notation used outside the break points")
+         ELSE << >>)
+     \o VC(sci => out[epos] = o.exp, "C14", "exponent character differs from the configured one")
+     \o VC(o.max > 0 /\ lay.n > 0 => lay.n <= o.max, "C14", "more significant digits than max_significant_digits")
+     \o VC(o.min > 0 /\ lay.n > 0 /\ ~trimmedInt => lay.total >= o.min, "C14", "fewer significant digits than min_significant_digits")
+     \o VC(f.required_exponent_sign /\ sci => sc.esign # 0, "C08", "required exponent sign not written")
+
 DefaultNan == << 78, 97, 78 >>       \* "NaN"
 DefaultInf == << 105, 110, 102 >>    \* "inf"
 DefaultInfinity == << 105, 110, 102, 105, 110, 105, 116, 121 >>
